@@ -13,17 +13,20 @@
 (* request was made still counts on (at most the property needs nothing about promptness).    *)
 EXTENDS Sequences, Integers, Json, IOUtils, TLC
 Rec == ndJsonDeserialize(IOEnv.TRACE)
-VARIABLES l, run, cfg, cur, pend, bad, nruns, taken
-tvars == <<l, run, cfg, cur, pend, bad, nruns, taken>>
+VARIABLES l, run, cfg, cur, pend, bad, nruns, taken, first
+tvars == <<l, run, cfg, cur, pend, bad, nruns, taken, first>>
 E == Rec[l]
 More == l <= Len(Rec)
 Zero == [gr |-> 0, gn |-> 0, pr |-> 0, pn |-> 0]
-Init == l = 1 /\ run = 0 /\ cfg = [store |-> FALSE, interval |-> -1, runner |-> ""] /\ cur = Zero /\ pend = "none" /\ bad = <<>> /\ nruns = 0 /\ taken = 0
+Init == l = 1 /\ run = 0 /\ cfg = [store |-> FALSE, interval |-> -1, runner |-> ""] /\ cur = Zero /\ pend = "none" /\ bad = <<>> /\ nruns = 0 /\ taken = 0 /\ first = FALSE
 Mark(why) == bad' = Append(bad, [run |-> run, line |-> l, why |-> why, mode |-> pend, interval |-> cfg.interval, runner |-> cfg.runner])
 
 Reset == /\ E.a = "Reset" /\ l' = l + 1 /\ run' = run + 1 /\ nruns' = nruns + 1
          /\ cfg' = [store |-> E.store, interval |-> E.interval, runner |-> E.runner]
-         /\ cur' = Zero /\ pend' = "none" /\ UNCHANGED <<bad, taken>>
+         \* a run that starts on a store holding a snapshot (ResourceRestart!StopStart seen from the new process:
+         \* r := disk, n := 0): the RETAIN counters start from the stored values
+         /\ cur' = (IF E.bootGr >= 0 THEN [gr |-> E.bootGr, gn |-> 0, pr |-> E.bootPr, pn |-> 0] ELSE Zero)
+         /\ first' = (E.bootGr >= 0) /\ pend' = "none" /\ UNCHANGED <<bad, taken>>
 Obs == [gr |-> E.gr, gn |-> E.gn, pr |-> E.pr, pn |-> E.pn]
 Plus1(v) == [gr |-> v.gr + 1, gn |-> v.gn + 1, pr |-> v.pr + 1, pn |-> v.pn + 1]
 \* ResourceRestart!Restart followed by ResourceRestart!Cycle
@@ -39,17 +42,19 @@ Cycle == /\ E.a = "W" /\ l' = l + 1 /\ cur' = Obs
                                \cup (IF Obs.gn # 1 THEN {"plain-global-not-initialised"} ELSE {})
                     IN IF why = {} THEN UNCHANGED bad ELSE Mark(why)
             ELSE /\ UNCHANGED <<pend, taken>>
-                 /\ IF Obs = Plus1(cur) THEN UNCHANGED bad ELSE Mark({"cycle-does-not-count-on"})
+                 /\ IF Obs = Plus1(cur) THEN UNCHANGED bad
+                    ELSE IF first THEN Mark({"start-did-not-load-the-stored-retained-values"}) ELSE Mark({"cycle-does-not-count-on"})
+         /\ first' = FALSE
          /\ UNCHANGED <<run, cfg, nruns>>
 \* a snapshot handed to the store holds the values of the cycle that just ended
 Store == /\ E.a = "Store" /\ l' = l + 1
          /\ (IF E.gr = cur.gr /\ E.pr = cur.pr THEN UNCHANGED bad ELSE Mark({"saved-snapshot-differs-from-current-values"}))
-         /\ UNCHANGED <<run, cfg, cur, pend, nruns, taken>>
-Load == E.a = "Load" /\ l' = l + 1 /\ UNCHANGED <<run, cfg, cur, pend, bad, nruns, taken>>
-Req == /\ E.a = "Req" /\ l' = l + 1 /\ pend' = E.mode /\ UNCHANGED <<run, cfg, cur, bad, nruns, taken>>
+         /\ UNCHANGED <<run, cfg, cur, pend, nruns, taken, first>>
+Load == E.a = "Load" /\ l' = l + 1 /\ UNCHANGED <<run, cfg, cur, pend, bad, nruns, taken, first>>
+Req == /\ E.a = "Req" /\ l' = l + 1 /\ pend' = E.mode /\ UNCHANGED <<run, cfg, cur, bad, nruns, taken, first>>
 End == /\ E.a = "End" /\ l' = l + 1
        /\ (IF E.faulted THEN Mark({"resource-faulted"}) ELSE IF ~E.joined THEN Mark({"join-timeout"}) ELSE UNCHANGED bad)
-       /\ UNCHANGED <<run, cfg, cur, pend, nruns, taken>>
+       /\ UNCHANGED <<run, cfg, cur, pend, nruns, taken, first>>
 Next == More /\ (Reset \/ Cycle \/ Store \/ Load \/ Req \/ End)
 Spec == Init /\ [][Next]_tvars
 Done == l = Len(Rec) + 1 => JsonSerialize(IOEnv.OUT, [events |-> Len(Rec), runs |-> nruns, restarts |-> taken, bad |-> bad])
